@@ -16,7 +16,7 @@ def ob(name, freq, defs, npop=6, **kw):
            'c16_sort.*': 6, 'echs_instant_fixup.*': 3, 'echs_instant_add.*': 3}
     o = dict(name=name, src='h_strm.c', defs=d, units=U, incl=['src/evical.c'], replay_units='all', unwind=4, unwindset=uws,
              solver='cadical', timeout=1500, mem_gb=12, extra=['--max-field-sensitivity-array-size', '4'],
-             checks=['--bounds-check'], replace_calls={'echs_instant_sort': 'c16_sort'}, allow_nobody=['echs_tzob_offs', 'echs_tzob_shift', 'echs_instant_utc', 'echs_instant_loc'],
+             checks=['--bounds-check'], replace_calls={'echs_instant_sort': 'c16_sort'}, allow_nobody=['echs_tzob_shift', 'echs_instant_utc', 'echs_instant_loc'],
              enc=['refill', 'next_evrrul', FN[freq]], sym='DTSTART, list values, COUNT/UNTIL, position of the peek',
              bounds='%d pops over a cache of 4 (%d refills); %s' % (npop, (npop + 2) // 3, ' '.join(defs)),
              outside='the real cache size 64; TZID and non-Gregorian streams; streams followed for thousands of occurrences',
@@ -24,14 +24,17 @@ def ob(name, freq, defs, npop=6, **kw):
     o.update(kw)
     return o
 Q = ('quick', 'thorough'); T = ('thorough',)
-def small(name, freq, defs, **kw):
-    """cache of 2: every refill keeps one occurrence as the seed and hands out one, so 3 pops = 3 refills"""
-    o = ob(name, freq, defs, npop=3, **kw)
+def small(name, freq, defs, npop=3, **kw):
+    """cache of 2: every refill keeps one occurrence as the seed and hands out one, so n pops = n refills"""
+    o = ob(name, freq, defs, npop=npop, **kw)
     o['defs'] = [d if not d.startswith('ECHSE_VERIF_CCH') else 'ECHSE_VERIF_CCH=2U' for d in o['defs']]
-    o['bounds'] = '3 pops over a cache of 2 (3 refills); ' + ' '.join(defs)
+    o['bounds'] = '%d pops over a cache of 2 (%d refills); ' % (npop, npop) + ' '.join(defs)
     o['stubs'] = ['hook ECHSE_VERIF_CCH=2'] + o['stubs'][1:]
     return o
 OBLIGATIONS = [
+    small('secondly_restart_c2_p2', 7, ['RESTART', 'EXPECT_REFILLS'], npop=2, timeout=1200),
+    small('daily_restart_c2_p2', 4, ['RESTART', 'EXPECT_REFILLS'], npop=2, timeout=1200),
+    small('daily_count_c2_p2', 4, ['WITH_COUNT'], npop=2, timeout=1200),
     small('secondly_restart_c2', 7, ['RESTART', 'EXPECT_REFILLS'], timeout=1200),
     small('hourly_restart_c2', 5, ['RESTART', 'EXPECT_REFILLS'], timeout=1500),
     small('daily_count_c2', 4, ['WITH_COUNT'], timeout=1500),
